@@ -85,6 +85,7 @@ package executor
 
 //@ func (*mySQLUndoUpdateExecutor).ExecuteOn
 //@   prop C09
+//@   modifies ghost.all, heap.all
 //@   requires m != nil && conn != nil && m.baseExecutor != nil
 //@   ensures validated-first: ghost.stmts_open != old(ghost.stmts_open) || ghost.execs != old(ghost.execs) || called("PrepareContext#1") ==> called("dataValidationAndGoOn#1")
 //@   ensures validation-error-returned: called("dataValidationAndGoOn#1") && callres("dataValidationAndGoOn#1", 1) != nil ==> result == callres("dataValidationAndGoOn#1", 1) && !called("PrepareContext#1")
@@ -94,6 +95,7 @@ package executor
 
 //@ func (*mySQLUndoDeleteExecutor).ExecuteOn
 //@   prop C09
+//@   modifies ghost.all, heap.all
 //@   requires m != nil && conn != nil && m.baseExecutor != nil
 //@   ensures validated-first: ghost.stmts_open != old(ghost.stmts_open) || ghost.execs != old(ghost.execs) || called("PrepareContext#1") ==> called("dataValidationAndGoOn#1")
 //@   ensures validation-error-returned: called("dataValidationAndGoOn#1") && callres("dataValidationAndGoOn#1", 1) != nil ==> result == callres("dataValidationAndGoOn#1", 1) && !called("PrepareContext#1")
@@ -103,6 +105,7 @@ package executor
 
 //@ func (*mySQLUndoInsertExecutor).ExecuteOn
 //@   prop C09
+//@   modifies ghost.all, heap.all
 //@   requires m != nil && conn != nil && m.BaseExecutor != nil
 //@   ensures validated-first: ghost.stmts_open != old(ghost.stmts_open) || ghost.execs != old(ghost.execs) || called("PrepareContext#1") ==> called("dataValidationAndGoOn#1")
 //@   ensures validation-error-returned: called("dataValidationAndGoOn#1") && callres("dataValidationAndGoOn#1", 1) != nil ==> result == callres("dataValidationAndGoOn#1", 1) && !called("PrepareContext#1")
